@@ -369,7 +369,7 @@ def _spec_step(q, ch):
     return ("err", 0)
 
 
-def s3_grammar(prog, rep):
+def s3_grammar(prog, rep, memory_rule=None):
     """humansize_parse accepts exactly the documented language and applies exactly the prefix's power of 1000: the function's state
     machine is extracted from its control-flow graph by evaluating it over known values (sa/finite.py) -- one run per reachable
     (state, multiplier) configuration and input character, overflow guards taken as not firing -- and compared with the grammar's
@@ -403,14 +403,26 @@ def s3_grammar(prog, rep):
         raise cdb.AnalysisBroken("humansize_parse: state / multiplier are no longer integer locals")
     szterm = ("*", ("v", f.params[1]["name"], f.params[1]["id"]))
     steps = [e for e in f.all_elems() if e.is_incdec and norm(e.kid(0)) == sp]
-    if len(steps) != 1 or not steps[0].op.endswith("++"):
-        raise cdb.AnalysisBroken("humansize_parse no longer advances its cursor in exactly one place: the machine cannot be extracted")
-    step = steps[0]
+    moves = [e for e in f.all_elems() if e.is_assign and norm(e.kid(0)) == sp]
+    if not steps or moves or not all(e.op.endswith("++") for e in steps):
+        raise cdb.AnalysisBroken("humansize_parse no longer advances its cursor one byte at a time: the machine cannot be extracted")
 
     def choose(cond, env):
         # a test of the accumulated value is an overflow guard: the grammar is what is accepted when none fires
         return False if any(t == szterm for t in subterms(norm(cond))) else None
-    W = finite.Walker(f, tracked, lambda e: e is step, choose)
+    # reads through the cursor: all of the form *s (the machine looks at the current character only), and none once the
+    # cursor has been advanced past the terminator
+    PAST = ("$past-terminator",)
+    past_reads = []
+    offs = [e for e in f.all_elems() if e.cls in ("UnaryOperator", "ArraySubscriptExpr") and (e.cls != "UnaryOperator" or e.op == "*")
+            and root_var(norm(e)) is not None and root_var(norm(e))[1:] == sp[1:] and norm(e) != CH]
+    if offs:
+        raise cdb.AnalysisBroken("humansize_parse reads through its cursor at an offset (%s): the one-character machine model does not apply" % show(norm(offs[0])))
+
+    def watch(e, env):
+        if env.get(PAST) and norm(e) == CH and e.cls in ("UnaryOperator", "ImplicitCastExpr"):
+            past_reads.append(e)
+    W = finite.Walker(f, tracked, lambda e: any(e is x for x in steps), choose, watch=watch)
 
     def cfg_of(env):
         return tuple(sorted((k[1], v) for k, v in env.items() if k != CH and k[0] == "v"))
@@ -430,18 +442,19 @@ def s3_grammar(prog, rep):
         if len(bad) < 4:
             bad.append(msg)
 
-    def after_step(env, word):
-        """What the function does after the cursor has been advanced: with the next character NUL, and with it not NUL."""
-        e2 = {k: v for k, v in env.items()}
-        i = step.block.elems.index(step) + 1
-        return e2, i
+    def after_step(o):
+        """Where and in which state the function continues after the advance it stopped at."""
+        st = o[1]
+        return dict(o[2]), st.block.id, st.block.elems.index(st) + 1
     # first character (possibly the terminator: the empty string)
     start = {k: None for k in tracked}
     outs0 = run_from(f.entry, 0, start, 0)
     for o in outs0:
         if o[0] == "stop":
-            e2, i = after_step(o[2], "")
-            for o2 in run_from(step.block.id, i, e2, 0):
+            # the cursor now points past the terminator: what is there is not the string's, and must not be looked at
+            e2, bid, i = after_step(o)
+            e2[PAST] = 1
+            for o2 in run_from(bid, i, e2, None):
                 if not (o2[0] == "ret" and o2[1] == -1):
                     note("the empty string is not rejected")
         elif not (o[0] == "ret" and o[1] == -1):
@@ -453,11 +466,12 @@ def s3_grammar(prog, rep):
             if o[0] != "stop":
                 note("a return is reached before the first character %r was consumed" % chr(c & 255))
                 continue
-            work.append((o[2], _spec_step(("start", 0), c), chr(c & 255)))
+            work.append((o, _spec_step(("start", 0), c), chr(c & 255)))
     err = -1
     while work and not (len(bad) >= 4):
-        env, q, word = work.pop(0)
-        key = (cfg_of(env), q)
+        o0, q, word = work.pop(0)
+        env = o0[2]
+        key = (cfg_of(env), o0[1].pos, q)
         if key in seen:
             continue
         seen.add(key)
@@ -465,9 +479,9 @@ def s3_grammar(prog, rep):
         if npairs > 4000:
             note("more than 4000 (configuration, grammar state) pairs are reachable: the machine is not the finite one documented (after %r)" % word)
             break
-        e2, i = after_step(env, word)
+        e2, bid, i = after_step(o0)
         # end of string here
-        for o in run_from(step.block.id, i, e2, 0):
+        for o in run_from(bid, i, e2, 0):
             if o[0] != "ret":
                 note("after %r the terminator does not end the loop" % word)
                 continue
@@ -479,13 +493,21 @@ def s3_grammar(prog, rep):
         # one more character
         for c in alphabet:
             q2 = _spec_step(q, c)
-            for o in run_from(step.block.id, i, e2, c):
+            for o in run_from(bid, i, e2, c):
                 if o[0] == "ret":
                     # the loop gave up before the end of the string: fine only if nothing that follows could be accepted
                     if o[1] != -1 or q[0] != "err":
                         note("after %r the loop stops although %r follows (result %s)" % (word, chr(c & 255), o[1]))
                     continue
-                work.append((o[2], q2, word + chr(c & 255)))
+                work.append((o, q2, word + chr(c & 255)))
+    if memory_rule is not None:
+        ends = [m for m in bad if "terminator does not end the loop" in m or "empty string" in m]
+        rep.check(not past_reads and not ends, memory_rule, "humansize_parse looks at no byte after its string's terminator", f.loc,
+                  ("*s is read at %s after the cursor was advanced past the terminator" % past_reads[0].loc) if past_reads else
+                  ("; ".join(ends) if ends else "%d reachable configurations x %d byte values: the cursor advances one byte per step, every read is of the "
+                   "current byte, the terminator ends the loop, and after the empty string's terminator nothing is read" % (npairs, len(alphabet))),
+                  function=f.name, construct="strread:humansize_parse")
+        return
     rep.check(not bad, "S3-grammar", "humansize_parse accepts exactly /[0-9]+ ?[kMGTPE]?B?/ and multiplies by 1000^k", f.loc,
               "; ".join(bad) if bad else "%d reachable (configuration, grammar state) pairs x %d byte values explored" % (npairs, len(alphabet)),
               function=f.name, construct="grammar")
